@@ -655,7 +655,7 @@ func addTimeSubs(cfg *ResponseConfig, a *asset, period *m.Period, languages []st
 	typicalStppSegSizeBits := 2000 * 8 // 2kB
 	typicalWvttSegSizeBits := 200 * 8
 	vST := vAS.SegmentTemplate
-	for i, lang := range languages {
+	for _, lang := range languages {
 		rep := m.NewRepresentation()
 		rep.StartWithSAP = 1
 		st := m.NewSegmentTemplate()
@@ -680,7 +680,14 @@ func addTimeSubs(cfg *ResponseConfig, a *asset, period *m.Period, languages []st
 			st.SegmentTimeline = changeTimelineTimescale(vST.SegmentTimeline, int(*vST.Timescale), SUBS_TIME_TIMESCALE)
 		}
 		as := m.NewAdaptationSet()
-		as.Id = Ptr(uint32(100 + i))
+		// Ids from 100, continuing after subtitle sets added before (stpp and wvtt may both be requested)
+		asID := uint32(100)
+		for _, prevAS := range period.AdaptationSets {
+			if prevAS.Id != nil && *prevAS.Id >= asID {
+				asID = *prevAS.Id + 1
+			}
+		}
+		as.Id = Ptr(asID)
 		as.Lang = lang
 		as.ContentType = "text"
 		as.MimeType = "application/mp4"
